@@ -154,27 +154,27 @@ Proof.
 Qed.
 
 (* ------------------------------------------------------------------ a record decoded in place *)
-Lemma window_encoded L vals t :
-  fits_layout L vals = true ->
-  exists t', decode_layout L (window L (encode_layout L vals ++ t)) = Some (annot_layout L vals, t').
+Lemma decode_rec_encoded L vals t n :
+  layout_size L = Some n -> fits_layout L vals = true ->
+  exists t', decode_rec L (encode_layout L vals ++ t) = Some (annot_layout L vals, t').
 Proof.
-  intros Hf. unfold window. destruct (layout_size L) as [n|] eqn:En.
-  - pose proof (encode_fields_length L [] vals n Hf En) as Hl. fold (encode_layout L vals) in Hl.
-    exists []. rewrite <- Hl, firstn_app, firstn_all, Nat.sub_diag. cbn [firstn].
-    apply decode_encode_layout. exact Hf.
-  - exists t. apply decode_encode_layout. exact Hf.
+  intros En Hf. unfold decode_rec. rewrite En.
+  pose proof (encode_fields_length L [] vals n Hf En) as Hl. fold (encode_layout L vals) in Hl.
+  exists []. rewrite <- Hl, firstn_app, firstn_all, Nat.sub_diag. cbn [firstn].
+  apply decode_encode_layout. exact Hf.
 Qed.
 
-Lemma struct_parse_at_exact Lgen L b img pos vals t h :
-  Lgen = L -> fits_layout L vals = true ->
+(* a statically sized record *)
+Lemma struct_parse_at_exact Lgen L b img pos vals t h n :
+  Lgen = L -> layout_size L = Some n -> fits_layout L vals = true ->
   skipn (Z.to_nat pos) img = encode_layout L vals ++ t ->
   pos < SEEK_LIMIT ->
   adapt b (annot_layout L vals) = Some h ->
   struct_parse_at Lgen b img pos = Ok h.
 Proof.
-  intros -> Hf Hs Hp Ha. unfold struct_parse_at.
+  intros -> En Hf Hs Hp Ha. unfold struct_parse_at.
   destruct (Z.leb_spec SEEK_LIMIT pos) as [H|_]; [lia|].
-  destruct (window_encoded L vals t Hf) as [t' Hd].
+  destruct (decode_rec_encoded L vals t n En Hf) as [t' Hd].
   rewrite drop_skipn, Hs, Hd, Ha. reflexivity.
 Qed.
 
@@ -186,7 +186,7 @@ Proof.
   apply andb_prop in Hr. destruct Hr as [Hr Hd]. apply andb_prop in Hr. destruct Hr as [H0 H1].
   rewrite zlenT_eq in H1.
   unfold struct_parse_at. destruct (Z.leb_spec SEEK_LIMIT pos) as [H|_]; [lia|].
-  destruct (decode_layout L (window L (drop pos img))) as [[r t]|]; [|discriminate].
+  destruct (decode_rec L (drop pos img)) as [[r t]|]; [|discriminate].
   destruct (adapt_nonstrict b r Hn) as [h Hh]. rewrite Hh. exists h. reflexivity.
 Qed.
 
